@@ -375,21 +375,30 @@ type c14Rec struct {
 	res      Fields
 }
 
-func c14ExecConc(in Fields) (obs Fields) {
-	// ["conc"; me; #setup fields; setup...; T; (#fields; ops...) x T]
-	if len(in) < 4 {
+func c14ExecConc(in Fields) Fields { return c14RunConc(in, 1, false, true) }
+
+// kind "nihammer": input = ["nihammer"; note; me; #fields; setup; T; (#fields; ops...) x T]
+//   like "conc", but the goroutines run their (long) programs in a tight loop, and the LAST
+//   program is an epilogue run by itself after all the others have returned.  The generator
+//   makes 4-8 programs of NickInfo calls on ONE nick (all three strings of a call carry that
+//   call's stamp), 2 programs of GetNick on it, and the epilogue GetNick.
+func c14ExecNIHammer(in Fields) Fields { return c14RunConc(in, 2, true, false) }
+
+// in[off] = me; in[off+1] = #setup fields; ...
+func c14RunConc(in Fields, off int, epilogue, yield bool) (obs Fields) {
+	if len(in) < off+3 {
 		return F("bad")
 	}
-	me := string(in[1])
-	ns, err := strconv.Atoi(string(in[2]))
-	if err != nil || ns < 0 || 3+ns >= len(in) {
+	me := string(in[off])
+	ns, err := strconv.Atoi(string(in[off+1]))
+	if err != nil || ns < 0 || off+2+ns >= len(in) {
 		return F("bad")
 	}
-	setup, ok := c14ParseOps(in, 3, 3+ns)
+	setup, ok := c14ParseOps(in, off+2, off+2+ns)
 	if !ok {
 		return F("bad")
 	}
-	i := 3 + ns
+	i := off + 2 + ns
 	T, err := strconv.Atoi(string(in[i]))
 	if err != nil || T < 0 || T > 64 {
 		return F("bad")
@@ -420,7 +429,14 @@ func c14ExecConc(in Fields) (obs Fields) {
 	start := make(chan struct{})
 	var ready int32
 	var wg sync.WaitGroup
-	for t := 0; t < T; t++ {
+	conc := T
+	if epilogue && T > 0 {
+		conc = T - 1
+	}
+	if runtime.GOMAXPROCS(0) < 4 && runtime.NumCPU() >= 4 {
+		runtime.GOMAXPROCS(4)
+	}
+	for t := 0; t < conc; t++ {
 		wg.Add(1)
 		go func(t int) {
 			defer wg.Done()
@@ -432,7 +448,7 @@ func c14ExecConc(in Fields) (obs Fields) {
 			<-start
 			// spinning barrier: all goroutines leave together, so that the calls really overlap
 			atomic.AddInt32(&ready, 1)
-			for spin := 0; atomic.LoadInt32(&ready) < int32(T); spin++ {
+			for spin := 0; atomic.LoadInt32(&ready) < int32(conc); spin++ {
 				if spin%2000 == 1999 {
 					runtime.Gosched()
 				}
@@ -442,7 +458,7 @@ func c14ExecConc(in Fields) (obs Fields) {
 				v := c14Call(st, o)
 				ret := atomic.AddInt64(&ctr, 1)
 				recs[t] = append(recs[t], c14Rec{inv, ret, v.render()})
-				if (k+t)%3 == 0 {
+				if yield && (k+t)%3 == 0 {
 					runtime.Gosched()
 				}
 			}
@@ -452,6 +468,14 @@ func c14ExecConc(in Fields) (obs Fields) {
 	wg.Wait()
 	if atomic.LoadInt32(&panicked) != 0 {
 		return F("panic")
+	}
+	if epilogue && T > 0 {
+		for _, o := range progs[T-1] {
+			inv := atomic.AddInt64(&ctr, 1)
+			v := c14Call(st, o)
+			ret := atomic.AddInt64(&ctr, 1)
+			recs[T-1] = append(recs[T-1], c14Rec{inv, ret, v.render()})
+		}
 	}
 	for t := 0; t < T; t++ {
 		for _, r := range recs[t] {
@@ -601,6 +625,8 @@ func c14Exec(in Fields) Fields {
 	switch in.S(0) {
 	case "hammer":
 		return c14ExecHammer(in)
+	case "nihammer":
+		return c14ExecNIHammer(in)
 	case "alias":
 		return c14ExecAlias(in)
 	case "conc":
@@ -633,6 +659,8 @@ func c14Class(in Fields) string {
 			return "alias:len=100-249"
 		}
 		return "alias:len=250+"
+	case "nihammer":
+		return "nihammer"
 	case "hammer":
 		for _, f := range in {
 			if string(f) == "WI" {
@@ -999,6 +1027,40 @@ func c14HammerWipe(r *Rand) Fields {
 	return append(f, F(150)...)
 }
 
+// several writers on ONE nick: W goroutines each call NickInfo(nick, "i<t>.<k>", "h<t>.<k>", "n<t>.<k>")
+// K times, 2 goroutines call GetNick(nick) K times, epilogue GetNick(nick)
+func c14NIHammer(r *Rand) Fields {
+	nick := r.Pick([]string{"al", "me"})
+	setup := []c14Op{c14O("NC", "#c"), c14O("AS", "#c", "me"), c14O("NN", "al"), c14O("AS", "#c", "al"), c14O("NM", nick, "+iw")}
+	W := r.Range(4, 8)
+	K := r.Range(150, 300)
+	sf := c14OpFields(setup)
+	f := append(F("nihammer", c14HammerNote, "me", len(sf)), sf...)
+	f = append(f, F(W+3)...)
+	for t := 0; t < W; t++ {
+		var ops []c14Op
+		for k := 0; k < K; k++ {
+			st := fmt.Sprintf("%d.%03d", t, k)
+			ops = append(ops, c14O("NI", nick, "i"+st, "h"+st, "n"+st))
+		}
+		of := c14OpFields(ops)
+		f = append(append(f, F(len(of))...), of...)
+	}
+	for t := 0; t < 3; t++ { // two readers and the epilogue
+		n := K
+		if t == 2 {
+			n = 1
+		}
+		var ops []c14Op
+		for k := 0; k < n; k++ {
+			ops = append(ops, c14O("GN", nick))
+		}
+		of := c14OpFields(ops)
+		f = append(append(f, F(len(of))...), of...)
+	}
+	return f
+}
+
 func c14Gen(r *Rand, tier string, scale int, emit func(Fields)) {
 	if scale == 0 {
 		scale = 200
@@ -1019,5 +1081,8 @@ func c14Gen(r *Rand, tier string, scale int, emit func(Fields)) {
 	}
 	for i := 0; i < 2+scale/50; i++ {
 		emit(c14HammerWipe(r.Fork()))
+	}
+	for i := 0; i < 2+scale/50; i++ {
+		emit(c14NIHammer(r.Fork()))
 	}
 }
